@@ -213,3 +213,31 @@ func HarnessC08BlockedCallback() {
 	zzverif.Assert(e == nil && d.View().A == 1000, "C08 after a full callback queue and source errors a new config was not installed")
 	zzverif.Reached("c08-blocked-end")
 }
+
+// HarnessC08BlockingCancel: a blocking report abandoned by its caller (its context ends at an
+// arbitrary moment) must not wedge the monitor: later reports are served, and after shutdown no
+// goroutine is left.
+func HarnessC08BlockingCancel() {
+	verifyLog = nil
+	def := hcfg{}
+	src := &hwsrc{hsrc{name: "s0", init: hval{setA: true, a: 0}}}
+	ctx, cancel := context.WithCancel(context.Background())
+	d, err := Config(ctx, &def, src)
+	if err != nil {
+		zzverif.Fail("C04 Config failed on a valid stack")
+		cancel()
+		return
+	}
+	bctx, bcancel := context.WithCancel(ctx)
+	go func() { bcancel() }()
+	_ = src.wa.BlockingReportNewValue(bctx, mkValue(src.t, hval{setA: true, a: 1}))
+	zzverif.Quiesce()
+	e := src.wa.ReportNewValue(ctx, mkValue(src.t, hval{setA: true, a: 2}))
+	zzverif.Assert(e == nil, "C08 a report after an abandoned blocking report failed")
+	zzverif.Quiesce()
+	zzverif.Assert(d.View().A == 2, "C08 after a caller abandoned its blocking report, new configs are no longer installed (monitor wedged)")
+	cancel()
+	zzverif.Quiesce()
+	zzverif.Assert(zzverif.NumParked() == 0, "C08 background goroutines are still alive after shutdown: "+zzverif.ParkedDesc())
+	zzverif.Reached("c08-blocking-cancel-end")
+}
